@@ -397,6 +397,9 @@ func (e *endpoint) streamWrite(call string, n int, cuts []int, take func(k int) 
 		}
 		vsched.Record(&e.pair.o, hWrite, true, uint64(o.err)<<32)
 		vsched.Logf("%s fd=%d n=%d free=%d -> %v", call, e.f.fd, n, free, o.err)
+		if o.err == EAGAIN {
+			vsched.Point() // see the end of this function
+		}
 		return -1, o.err
 	}
 	data := take(o.n)
@@ -416,6 +419,13 @@ func (e *endpoint) streamWrite(call string, n int, cuts []int, take func(k int) 
 	}
 	record(hWrite, uint64(o.n), &e.pair.o, objs)
 	vsched.Logf("%s fd=%d n=%d free=%d -> %d", call, e.f.fd, n, free, o.n)
+	if o.n < n {
+		// a second scheduling point on the way back from a call that did not take everything:
+		// the caller is about to queue the rest, and the peer may make room (and the poller see
+		// the writability event) before it has done so. Without it "system call returned" and
+		// "remainder queued" would be one atomic step of the caller.
+		vsched.Point()
+	}
 	return o.n, nil
 }
 
